@@ -1,11 +1,13 @@
 import RasnModel.Driver.C06
 import RasnModel.Driver.C14
+import RasnModel.Driver.C16
 /- Line-protocol driver: one request per line, one canonical answer per line. -/
 
 def dispatch (line : String) : String :=
   match Sexp.parseLine line with
   | some (.atom "c06" :: args) => Driver.C06.handle args
   | some (.atom "c14" :: args) => Driver.C14.handle args
+  | some (.atom "c16" :: args) => Driver.C16.handle args
   | some (.atom "ping" :: _) => "pong"
   | _ => "bad-op"
 
